@@ -49,6 +49,9 @@ def make_input(kind, seed, shape):
     raise ValueError(kind)
 
 
+_SHARED = []
+
+
 def implementations(cutoff, order):
     """name -> (real-space fn or None, fourier-space fn or None)"""
     from acryo import _utils
@@ -64,6 +67,11 @@ def implementations(cutoff, order):
                     lambda x: be.asnumpy(be.lowpass_filter_ft(x, cutoff, order))),
         "pipe": (lambda x: pipe.lowpass_filter(cutoff, order)(x, 1.37), None),
     }
+    if not _SHARED:
+        _SHARED.append(Backend())
+    sb = _SHARED[0]  # one long-lived Backend: weights cached per backend object are re-used between cases
+    out["backend[shared]"] = (lambda x: sb.asnumpy(sb.lowpass_filter(x, cutoff, order)),
+                              lambda x: sb.asnumpy(sb.lowpass_filter_ft(x, cutoff, order)))
     if order == 2 and cutoff > 0:
         def _model_ft(x):
             m = ZNCCAlignment(np.ones(x.shape, dtype=np.float32), cutoff=cutoff)
